@@ -764,8 +764,8 @@ func alwaysExecutes(in ssa.Instruction) bool {
 	f := in.Parent()
 	ok := true
 	for _, b := range f.Blocks {
-		if len(b.Instrs) == 0 {
-			continue
+		if len(b.Instrs) == 0 || b == f.Recover {
+			continue // (the recover block is where a recovered panic resumes, not a normal return)
 		}
 		if _, isRet := b.Instrs[len(b.Instrs)-1].(*ssa.Return); isRet {
 			if !(in.Block() == b || in.Block().Dominates(b)) {
